@@ -45,7 +45,7 @@ struct Tracked
   Tracked(int x) : v(x) { born(); }
   Tracked(const Tracked& o) : v(0)
   {
-    if(o.alive("copy-construct from")) v = o.v;
+    o.alive("copy-construct from"); v = o.v;
     born();
     ++reg().copies;
   }
@@ -67,9 +67,9 @@ struct Tracked
     ++reg().assigns;
     return *this;
   }
-  int get() const { return alive("read") ? v : -12345; }
+  int get() const { alive("read"); return v; }
   void set(int x) { if(alive("write")) { v = x; *cell = x; } }
-#define VF_CMP(op) bool operator op(const Tracked& o) const { ++reg().cmps; bool a = alive("compare"), b = o.alive("compare"); return a && b ? v op o.v : false; }
+#define VF_CMP(op) bool operator op(const Tracked& o) const { ++reg().cmps; alive("compare"); o.alive("compare"); return v op o.v; }   /* a dead element still holds its last value, as a plain type would */
   VF_CMP(==) VF_CMP(!=) VF_CMP(<) VF_CMP(>) VF_CMP(<=) VF_CMP(>=)
 #undef VF_CMP
 };
